@@ -46,7 +46,7 @@ class CommandRun:
     def __init__(self, repo, *, cls_name="GCodeBuilder", tier="quick", pins=None, transform="identity",
                  max_dev="tier", sign_mode="bool", methods=None, exclude=(), event_funcs=(), with_invalid=True,
                  point_variants=("none", "point"), per_path_setup=None, cm_body=("pass",), max_paths=400000,
-                 nanable=None, jobs=None, loop_unroll=None, pin_halt=True, io_failures=False):
+                 nanable=None, jobs=None, loop_unroll=None, pin_halt=True, io_failures=False, opaque_payload_ok=False):
         self.repo = str(repo)
         self.cls_name = cls_name
         self.tier = tier
@@ -65,6 +65,7 @@ class CommandRun:
         self.max_paths = max_paths
         self.nanable = nanable
         self.jobs = jobs or int(os.environ.get("GSVERIF_JOBS") or 0) or min(16, os.cpu_count() or 1)
+        self.opaque_payload_ok = opaque_payload_ok     # the rule judges payload objects itself (C14)
         self.stats = {}
         # World invariant, discharged by this very run (see run()): between two
         # commands the halt mode is OFF.  While it is inductive the worlds
@@ -148,7 +149,7 @@ class CommandRun:
                 if is_writer_delivery(e):
                     v = e.data["args"][0] if e.data["args"] else None
                     v = v.s if isinstance(v, Bytes) else v
-                    if isinstance(v, Unk) and v.typ == "ext":
+                    if isinstance(v, Unk) and v.typ in ("ext", "object") and not self.opaque_payload_ok:
                         raise AnalysisError(f"{name}({desc}): the line handed to the writers is the result of a call the analysis does not model "
                                             f"({v.tag}); its content cannot be followed, so nothing is decided")
             r = analyse(W, name, f, ctx, desc, res)
